@@ -397,6 +397,16 @@ func cmdCheck(args []string) int {
 			fmt.Printf("UNDECIDED reason=not-generated %s\n", m)
 			undecided++
 		}
+		if len(funcErrs) > 0 && (claims.Harness == "" || harnessOK) && violations == 0 {
+			// the contract of a function under contract no longer applies to its code:
+			// the claimed obligations cannot be generated, the proof is void
+			violations++
+			exit = 1
+			p := writeReplay("stale_contract", map[string]interface{}{"property": id, "obligation": "stale-contract", "missing": missing, "errors": funcErrs,
+				"failing_input_found": false, "harness": claims.Harness, "harness_pkg": claims.HarnessPkg, "harness_run": claims.HarnessRun, "harness_output": tail(harnessOut, 2000),
+				"explanation": "the contract refers to code that changed; the obligations generated from it on the unchanged tree cannot be generated any more"})
+			fmt.Printf("VIOLATION property=%s replay=%s no-failing-input-found\n", id, p)
+		}
 		if claims.Harness != "" && !harnessOK && violations == 0 {
 			violations++
 			exit = 1
